@@ -6,6 +6,6 @@ git -C $WT checkout -q -- . || exit 9
 git -C $WT apply $M/patch.diff || { echo "patch does not apply"; exit 9; }
 SUITE=$(cd $WT && /venv/bin/python -m pytest -q -p no:cacheprovider 2>&1 | tail -1)
 (cd $WT && PYTHONPATH=$WT /venv/bin/python $M/demo.py >/dev/null 2>&1); MUT=$?
-OUT=$(cd /verif && VERIF_REPO=$WT timeout 1200 ./check $P --tier $TIER --no-build 2>/dev/null | grep -E "VIOLATION|PASS|INTERNAL|KNOWN" | tr '\n' ' ')
+OUT=$(cd /verif && VERIF_REPO=$WT timeout 1200 ./check $P --tier $TIER  2>/dev/null | grep -E "VIOLATION|PASS|INTERNAL|KNOWN" | tr '\n' ' ')
 git -C $WT checkout -q -- .
 echo "$P $(basename $M): demo clean=$CLEAN mutated=$MUT suite=[$SUITE] check=[$OUT]"
